@@ -82,10 +82,14 @@ template<class T> static void delayseq_case(const base_array<T>& x, int d, bool 
     const int N = x.size();
     const std::string js = "{" + jstr("fn", "\"delayseq\"") + jstr("type", std::string("\"") + tag + "\"") + jstr("d", I(d)) + jstr("x", vh::jarr(x), true) + "}";
     vh::set_current("C18:delayseq", js);
-    base_array<T> y = dseq(x, d);
+    base_array<T> y;
+    bool threw = false;
+    try {
+        y = dseq(x, d);
+    } catch (const std::exception&) { threw = true; }
     vh::clear_current();
     ++out.n_oracle;
-    bool ok = y.size() == N;
+    bool ok = !threw && y.size() == N;
     for (int i = 0; ok && i < N; ++i) {
         const long long s = (long long)i - d;
         const T want = (s >= 0 && s < N) ? x[(int)s] : T(0);
@@ -93,7 +97,7 @@ template<class T> static void delayseq_case(const base_array<T>& x, int d, bool 
     }
     if (!ok) out.fail("C18:delayseq", js);
     out.stat(d == 0 ? "ds_zero_shift" : (std::llabs((long long)d) >= N ? "ds_shift_ge_len" : (d > 0 ? "ds_delay" : "ds_advance")));
-    if (corr) out.corr(std::string(tag) + " " + I(d) + " " + vh::hxs(x), vh::hxs(y));
+    if (corr) out.corr(std::string(tag) + " " + I(d) + " " + vh::hxs(x), threw ? std::string("ERR") : vh::hxs(y));
 }
 
 static void run_delayseq(vh::Rng& r) {
@@ -147,11 +151,9 @@ static void peakloc_real_case(const arr_real& x, int idx, bool cyclic, bool corr
 }
 
 static void peakloc_cmplx_case(const arr_cmplx& x, int idx, bool cyclic, bool corr) {
-    const int n = x.size();
     const real_t got = peakloc(x, idx, cyclic);
     if (corr) out.corr(std::string("plC ") + I(idx) + " " + (cyclic ? "1" : "0") + " " + vh::hxs(x), vh::hx(got));
     out.stat("pl_complex_overload_corr_only");
-    (void)n;
 }
 
 static void run_peakloc(vh::Rng& r) {
@@ -172,10 +174,6 @@ static void run_peakloc(vh::Rng& r) {
             else { idxs = {0, 1, n - 2, n - 1, argmax(x)}; for (int k = 0; k < 4; ++k) idxs.push_back(r.range(0, n - 1)); }
             for (int idx : idxs)
                 for (int cyc = 0; cyc < 2; ++cyc) peakloc_real_case(x, idx, cyc, n <= 64);
-            if (kind == 5 && n >= 5) {   // the vertex of an exact parabola is recovered from any interior triple
-                int idx = std::min(n - 2, std::max(1, (int)(r.unit() * n)));
-                (void)idx;
-            }
             arr_cmplx z = white_c(r, n, 0);
             if (kind == 3) for (int i = 0; i < n; ++i) z[i].im = 0;   // real-valued complex data
             for (int idx : idxs)
@@ -323,7 +321,9 @@ static void run_delay_estimators(vh::Rng& r) {
                 finddelay_case(x1, y, d, true, corr_ok, "fdR", wn);
                 out.stat(nmode == 0 ? "fd_real_noiseless" : "fd_real_noisy");
                 const int fs = (k % 2) ? FS_LIST[r.range(0, 12)] : r.range(1, 48000);
-                gcc_case(y, x1, fs, d, true, corr_ok && n <= 400, wn);
+                // CORR only for continuous-valued signals: a +-1 sequence can have an exactly-zero DC / Nyquist bin, whose PHAT weight
+                // Y/(|Y|+eps) then amplifies the rounding noise of that bin (an ill-conditioned comparison; the oracle still covers it)
+                gcc_case(y, x1, fs, d, true, corr_ok && n <= 400 && wk != 2, wn);
                 out.stat(nmode == 0 ? "gcc_noiseless" : "gcc_noisy");
             }
             {   // complex
@@ -339,8 +339,8 @@ static void run_delay_estimators(vh::Rng& r) {
             }
         }
         // multi-channel gccphat
-        std::vector<int> mds;
-        for (int c = 0; c < 3; ++c) mds.push_back(r.range(-(n / 4), n / 4));
+        std::vector<int> mds = {n / 4, -(n / 4)};   // the ends of the shift range every time
+        mds.push_back(r.range(-(n / 4), n / 4));
         gcc_multi_case(r, white_r(r, n, 0), FS_LIST[r.range(0, 12)], mds, r.coin() ? 1000 : 30 + 20 * r.unit(), n <= 300);
     };
     for (int n : every_len) one_len(n, true);
@@ -376,6 +376,33 @@ static void run_delay_estimators(vh::Rng& r) {
         arr_real g3 = delayseq(g2, r.range(-ng + 1, ng - 1));   // any shift, also beyond len/4 and beyond len/2 (unwrap branch)
         gcc_case(g3, g2, r.range(1, 48000), 0, false, true, "any-shift");
         out.stat("gcc_corr_only", 2);
+        // multi-channel overload, any shift (both branches of its own unwrapping), CORR only
+        {
+            std::vector<arr_real> sg;
+            const int nch = r.range(1, 3);
+            for (int c = 0; c < nch; ++c) sg.push_back(delayseq(g2, r.range(-ng + 1, ng - 1)));
+            const int fs = r.range(1, 48000);
+            gccphat_res_ch_t res = gccphat(sg, g2, fs);
+            std::string lhs = "gccm " + I(fs) + " " + I(nch), rhs;
+            for (int c = 0; c < nch; ++c) {
+                lhs += " " + vh::hxs(sg[c]);
+                rhs += (c ? " " : "") + I(argmax(res.corr[c])) + " " + vh::hx(res.tau[c] * fs);
+            }
+            out.corr(lhs + " " + vh::hxs(g2), rhs);
+            out.stat("gcc_multi_corr_only");
+        }
+        // finddelay at the unwrap boundary: a short burst p inside a frame q of power-of-two length, every position around nfft/2
+        {
+            const int lg = r.range(3, 6), nf = 1 << lg, np = r.range(1, 3);
+            for (int sft = nf / 2 - 2; sft <= nf / 2 + 2 && sft + np <= nf; ++sft) {
+                arr_real pb = white_r(r, np, 0), qf(nf);
+                for (int i = 0; i < nf; ++i) qf[i] = 0;
+                for (int i = 0; i < np; ++i) qf[sft + i] = pb[i];
+                finddelay_case(qf, pb, 0, false, true, "fdR", "unwrap-boundary");
+                finddelay_case(pb, qf, 0, false, true, "fdR", "unwrap-boundary");
+                out.stat("fd_corr_only_unwrap_boundary", 2);
+            }
+        }
     }
 }
 
